@@ -81,6 +81,7 @@ type qFacts struct {
 	orders   []string   // ORDER BY keys in call order (constants); "¤" when one is not a constant
 	orderPos token.Pos
 	limit1   bool
+	composedOf []*ssa.Function // the builders given together at the call this chain stands for (compositions)
 	wheres   []string // texts of the Where formats (¤ for non-constant pieces), factory parameters resolved per Apply site
 }
 
@@ -178,6 +179,8 @@ func (qa *qAnalyzer) analyse(fn *ssa.Function) (classes map[ssa.Value]*qFacts, f
 		call *ssa.Call
 	}
 	var factoryApplies []factoryApply
+	var compositions []ssa.Value
+	compMembers := map[ssa.Value][]*ssa.Function{}
 	ri := &reachInfo{c: qa.c, memo: map[*ssa.Function]map[string]string{}, impls: map[*types.Func][]*ssa.Function{}}
 	for _, b := range fn.Blocks {
 		for _, ins := range b.Instrs {
@@ -209,6 +212,42 @@ func (qa *qAnalyzer) analyse(fn *ssa.Function) (classes map[ssa.Value]*qFacts, f
 						}
 					}
 					continue
+				}
+				// a repository function given query builders (`store.newSelect(selectLatestMoves, store.filterLedger("moves"))`,
+				// `fetch(store, ctx, func(q) …)`): the builders given together make one chain, the call stands for it
+				if callee := staticCallee(x); callee != nil && inRepo(fnPkgPath(origin(callee))) {
+					var members []ssa.Value
+					for _, a := range x.Call.Args {
+						if isBuilderType(a.Type()) {
+							members = append(members, a)
+						} else if sl, ok := a.(*ssa.Slice); ok {
+							for _, e := range variadicElems(sl) {
+								if isBuilderType(e.Type()) {
+									members = append(members, e)
+								}
+							}
+						}
+					}
+					var given []ssa.Value
+					for _, m := range members {
+						switch strip(m).(type) {
+						case *ssa.Function, *ssa.MakeClosure, *ssa.Call:
+							given = append(given, strip(m))
+						}
+					}
+					if len(given) > 0 && len(given) == len(members) {
+						findF(x)
+						compositions = append(compositions, x)
+						for _, m := range given {
+							fc, isFactory := m.(*ssa.Call)
+							fns := ri.funcsOfValue(m, 0)
+							inherits = append(inherits, inh{x, fns, isFactory})
+							if isFactory {
+								factoryApplies = append(factoryApplies, factoryApply{x, fc})
+							}
+							compMembers[x] = append(compMembers[x], fns...)
+						}
+					}
 				}
 				// helper of the repository taking and returning a query
 				if isSelectQuery(x.Type()) {
@@ -381,7 +420,40 @@ func (qa *qAnalyzer) analyse(fn *ssa.Function) (classes map[ssa.Value]*qFacts, f
 		}
 	}
 	for _, fa := range factoryApplies {
-		get(fa.cls).wheres = append(get(fa.cls).wheres, factoryWhereTexts(fa.call)...)
+		f := get(fa.cls)
+		texts, ledgerBound := factoryWhereTexts(fa.call, qa)
+		f.wheres = append(f.wheres, texts...)
+		for i, w := range texts {
+			if reLedgerQ.MatchString(w) && ledgerBound[i] {
+				f.ledgerWhere = true
+				for _, m := range reLedgerQ.FindAllStringSubmatch(w, -1) {
+					f.ledgerQ[strings.ToLower(strings.TrimSuffix(m[2], "."))] = fa.call.Pos()
+				}
+			}
+		}
+	}
+	// a composition whose only member naming a table scopes it itself adds nothing: that member is decided on its own
+	for _, x := range compositions {
+		r := findF(x)
+		f := classes[r]
+		if f == nil {
+			continue
+		}
+		f.composedOf = compMembers[x]
+		nFrom, selfSufficient := 0, true
+		for _, m := range compMembers[x] {
+			mf := qa.paramFacts(m)
+			if mf == nil || len(mf.from) == 0 {
+				continue
+			}
+			nFrom++
+			if !mf.ledgerWhere {
+				selfSufficient = false
+			}
+		}
+		if nFrom <= 1 && selfSufficient && !isSelectQuery(x.Type()) {
+			delete(classes, r)
+		}
 	}
 	return classes, findF
 }
@@ -438,6 +510,39 @@ func ruleR04a(c *Ctx) {
 	c.Info["ledger_partitioned_tables"] = tn
 	qa := &qAnalyzer{c: c, ls: ls, nameField: nameField, memo: map[*ssa.Function]*qFacts{}, busy: map[*ssa.Function]bool{}}
 	nChains := 0
+	compSeen := map[string]int{}
+	// builders given as values (to Apply, or to a function of the repository)
+	givenAsBuilder := map[*ssa.Function]bool{}
+	for _, fn := range c.FuncsIn(pkgLedgerstore) {
+		allCalls(fn, func(ci ssa.CallInstruction) {
+			name := calleeFullName(ci)
+			callee := staticCallee(ci)
+			if name != "(*"+pkgBun+".SelectQuery).Apply" && (callee == nil || !inRepo(fnPkgPath(origin(callee)))) {
+				return
+			}
+			mark := func(v ssa.Value) {
+				switch x := strip(v).(type) {
+				case *ssa.Function:
+					givenAsBuilder[x] = true
+				case *ssa.MakeClosure:
+					if f, ok := x.Fn.(*ssa.Function); ok {
+						givenAsBuilder[f] = true
+					}
+				}
+			}
+			for _, a := range ci.Common().Args {
+				if isBuilderType(a.Type()) {
+					mark(a)
+				} else if sl, ok := a.(*ssa.Slice); ok {
+					for _, e := range variadicElems(sl) {
+						if isBuilderType(e.Type()) {
+							mark(e)
+						}
+					}
+				}
+			}
+		})
+	}
 	for _, fn := range c.FuncsIn(pkgLedgerstore) {
 		if len(fn.Blocks) == 0 || fn.Synthetic != "" {
 			continue
@@ -461,6 +566,15 @@ func ruleR04a(c *Ctx) {
 					if isSelectQuery(p.Type()) {
 						deferred = classes[find(p)]
 					}
+				}
+			}
+		}
+		// a builder given as a value to a repository function or to Apply: its chain is one part of the chain built at
+		// that call (a composition, or the chain Apply is called on), decided there
+		if givenAsBuilder[fn] {
+			for _, p := range fn.Params {
+				if isSelectQuery(p.Type()) {
+					deferred = classes[find(p)]
 				}
 			}
 		}
@@ -497,6 +611,21 @@ func ruleR04a(c *Ctx) {
 			}
 			nChains++
 			key := fnName(fn) + ":from-" + it.table
+			if len(it.f.composedOf) > 0 {
+				// named after the builder that brings the table, as when that builder is decided on its own
+				for _, m := range it.f.composedOf {
+					if mf := qa.paramFacts(m); mf != nil {
+						if _, has := mf.from[it.table]; has {
+							key = fnName(m) + ":from-" + it.table
+							break
+						}
+					}
+				}
+				compSeen[key]++
+				if n := compSeen[key]; n > 1 {
+					key = fmt.Sprintf("%s#%d", key, n)
+				}
+			}
 			if withNames[it.table] && !it.f.bodyOf[it.table] && !it.f.ledgerWhere {
 				// reads a CTE of that name; the CTE's own chain is checked where it is built
 				c.ok(rule, key, it.f.from[it.table], "reads the CTE `"+it.table+"` defined with With(…) in this function")
@@ -751,12 +880,11 @@ func scopeHasSeqKey(toks []sqlTok, lo, hi, d int) bool {
 
 // factoryWhereTexts: `Apply(factory(a, "col"))` — the Where formats of the builder literal the factory returns, with
 // the literal's captured variables resolved to the factory's parameters and those to the arguments of this call.
-func factoryWhereTexts(call *ssa.Call) []string {
+func factoryWhereTexts(call *ssa.Call, qa *qAnalyzer) (out []string, ledgerBound []bool) {
 	g := staticCallee(call)
 	if g == nil || len(g.Blocks) == 0 {
-		return nil
+		return nil, nil
 	}
-	var out []string
 	for _, lit := range g.AnonFuncs {
 		// bindings of the literal
 		var mc *ssa.MakeClosure
@@ -826,8 +954,25 @@ func factoryWhereTexts(call *ssa.Call) []string {
 					}
 				}
 				out = append(out, text)
+				bound := false
+				if qa != nil && len(args) > 2 {
+					for _, b := range variadicElems(args[len(args)-1]) {
+						if qa.argIsStoreName(b) {
+							bound = true
+						}
+					}
+				}
+				ledgerBound = append(ledgerBound, bound)
 			}
 		})
 	}
-	return out
+	return out, ledgerBound
+}
+
+func isBuilderType(t types.Type) bool {
+	sig, ok := t.Underlying().(*types.Signature)
+	if !ok || sig.Params().Len() != 1 || sig.Results().Len() != 1 {
+		return false
+	}
+	return isSelectQuery(sig.Params().At(0).Type()) && isSelectQuery(sig.Results().At(0).Type())
 }
